@@ -45,7 +45,9 @@ func Introspect(w http.ResponseWriter, r *http.Request, introspector Introspecto
 	}
 	err = introspector.Storage().SetIntrospectionFromToken(r.Context(), response, tokenID, subject, clientID)
 	if err != nil {
-		httphelper.MarshalJSON(w, response)
+		// {"active":false} and nothing else (RFC 7662, section 2.2): what the storage
+		// wrote into the response before it failed must not be disclosed
+		httphelper.MarshalJSON(w, new(oidc.IntrospectionResponse))
 		return
 	}
 	response.Active = true
